@@ -98,6 +98,13 @@ pub fn judge(scn: &Scenario, res: &ExecResult, _base: Option<&ExecResult>) -> Ve
         }
         let Some(r) = rate_of(res, ni) else { continue };
         let want = rates[ni];
+        // the reference itself must advance: a session that does not move in a fault-free run of
+        // this configuration can never "resume advancing"
+        if want <= 0 {
+            out.push(v("no-progress-without-faults", ni, 0, format!(
+                "the fault-free run of this configuration does not advance at all in {RATE_WINDOW} rounds ({} {ni})", if nt.is_spec { "spectator" } else { "session" })));
+            continue;
+        }
         if let Ok(path) = std::env::var("C05_RATIO_LOG") {
             use std::io::Write;
             if r < want - 2 {
@@ -162,7 +169,7 @@ pub fn c05() -> i32 {
                     if !t && (d == 2 && w == 1 || spec.is_some() && w != 2 && w != 0) {
                         continue;
                     }
-                    let mut s = base_scn("c05-D", tp, w, d, w == 8, Pred::RepeatLast, Program::Changing, 1);
+                    let mut s = base_scn("c05-D", tp, w, d, w == 8 || w == 2 && d == 2, Pred::RepeatLast, Program::Changing, 1);
                     if let Some((sw, cu)) = spec {
                         with_spec(&mut s, sw, cu);
                     }
